@@ -99,6 +99,25 @@ def run(ctx):
                       {'source': 'oracle', 'law': law, 'versions': wit,
                        'theorem': 'C15_total_order / C15_operators_consistent'})
 
+    # the same laws on every class that carries a version in an engine
+    # (Algorithm, Analyzer, Regression, Value, StateVector = Version + dict)
+    cvs = [tuple(v) for v in impl.get('carrier_versions', [])]
+    for cname, tab in sorted(impl.get('carriers', {}).items()):
+        if 'exc' in tab:
+            ctx.violation('order-law', {'law': 'raises', 'carrier': cname},
+                          'comparing two %s objects raises %s' % (cname, tab['exc']),
+                          {'source': 'oracle', 'carrier': cname, 'theorem': 'C15_operators_consistent'})
+            hit = hit or ('raises', [cname])
+            continue
+        h2 = law_search(cvs, tab)
+        if h2:
+            ctx.violation('order-law', {'law': h2[0], 'carrier': cname},
+                          '%s objects violate %s on versions %s' % (cname, h2[0], h2[1]),
+                          {'source': 'oracle', 'law': h2[0], 'versions': h2[1], 'carrier': cname,
+                           'theorem': 'C15_total_order / C15_operators_consistent'})
+            hit = hit or h2
+    ctx.note('carriers', sorted(impl.get('carriers', {})))
+
     # ---- generate + prove ---------------------------------------------------
     okd, msgd = ctx.generate('diff2coq.py', 'Gen/DiffGen.v')
     ok, msg = ctx.generate('version2coq.py', 'Gen/VersionGen.v')
